@@ -237,6 +237,15 @@ inline LD tolr(LD kappa, LD scale, bool approx = false)
   return 32 * kappa * Eps<S>::eps() * scale + (approx ? Eps<S>::approx() * scale : 0.0L);
 }
 
+// xfmPoint / xfmVector / xfmNormal (and the affine xfmPoint behind applyA) are defined through madd(),
+// and the only scalar madd is float madd(float,float,float): for a double instantiation these functions
+// are single-precision by definition (an observation, see DESIGN 9.4), everything else is double-precision.
+template <class S>
+inline LD tolx(LD kappa, LD scale, bool approx = false)
+{
+  return tolr<float>(kappa, scale, approx && std::is_same<S, float>::value);
+}
+
 // ---------------------------------------------------------------- rkcommon <-> reference conversions
 inline ref::V rv(const vec2f &a) { return ref::vec(a.x, a.y, 0); }
 inline ref::V rv(const vec3f &a) { return ref::vec(a.x, a.y, a.z); }
@@ -344,6 +353,15 @@ struct Nm<LinearSpace3fa>
   static const char *aff() { return "AffineSpace3fa"; }
   static const char *vec() { return "vec3fa"; }
 };
+typedef LinearSpace3<vec3d> LinearSpace3d;  // no alias in the library; double instantiation of the same templates
+template <>
+struct Nm<LinearSpace3d>
+{
+  static int dim() { return 3; }
+  static const char *lin() { return "LinearSpace3d"; }
+  static const char *aff() { return "AffineSpace3d"; }
+  static const char *vec() { return "vec3d"; }
+};
 template <class S>
 struct QNm;
 template <>
@@ -367,3 +385,4 @@ inline uint64_t hbits(const T &x, uint64_t h = 1469598103934665603ull)
 inline vec2f applyA(const AffineSpace2f &a, const vec2f &p) { return a.l * p + a.p; }
 inline vec3f applyA(const AffineSpace3f &a, const vec3f &p) { return xfmPoint(a, p); }
 inline vec3fa applyA(const AffineSpace3fa &a, const vec3fa &p) { return xfmPoint(a, p); }
+inline vec3d applyA(const AffineSpaceT<LinearSpace3d> &a, const vec3d &p) { return xfmPoint(a, p); }
